@@ -1,11 +1,13 @@
 mod c02;
 mod c03;
+mod c04;
 mod c08;
 mod c11;
 mod c13;
 mod c17;
 mod c20;
 mod common;
+mod probe;
 mod progs;
 mod wgpucheck;
 
@@ -32,10 +34,15 @@ fn main() {
         }
         return;
     }
+    if args[1] == "setup" {
+        probe::setup();
+        return;
+    }
     let tier = args[2].as_str();
     let code = match args[1].as_str() {
         "C02" => c02::run(tier),
         "C03" => c03::run(tier),
+        "C04" => c04::run(tier),
         "C08" => c08::run(tier),
         "C11" => c11::run(tier),
         "C13" => c13::run(tier),
